@@ -182,7 +182,7 @@ func (w *mis) op() {
 		}
 		return a
 	}
-	kind := t.Choose(16)
+	kind := t.Choose(17)
 	name := ""
 	switch kind {
 	case 0, 1: // element read outside the view
@@ -523,7 +523,113 @@ func (w *mis) op() {
 			silent(name, fmt.Sprintf("ConstIteratorFrom(%d,%d) on a %dx%d view visits elements outside the view", i, j, vr, vc))
 		}
 		c.Count("misuse:index-out-of-view")
+	case 16: // constructor handed an index outside the object
+		n := t.Range(1, 4)
+		k := t.Choose(3) // sparse vector, sparse constant vector, sparse matrix
+		bad := badIndex(t, n)
+		idx := []int{bad}
+		if t.Bool(1, 2) && n > 1 {
+			idx = []int{t.Choose(n - 1), bad}
+			if t.Bool(1, 2) {
+				idx[0], idx[1] = idx[1], idx[0]
+			}
+		}
+		name = []string{"NewSparseVector", "NewSparseConstVector", "NewSparseMatrix"}[k]
+		c.Logf("%s(%s) with indices %v for dimension %d", name, elemTypes[w.e].name, idx, n)
+		var made string
+		r := try(func() error {
+			made = construct(k, w.e, idx, n)
+			return nil
+		})
+		if made == "n/a" {
+			break
+		}
+		if !loud(r) {
+			silent(name+"-index-out-of-range", fmt.Sprintf("%s with indices %v for an object of dimension %d was accepted and gave %s", name, idx, n, made))
+		}
+		c.Count("misuse:constructor-index")
 	}
-	w.after(name, before, kind >= 2)
+	w.after(name, before, kind >= 2 && kind != 16)
 	c.StateStr(fmt.Sprintf("%s|%s|%d", w.class(), name, w.e))
+}
+
+// construct calls the type-specific constructor of a sparse container with
+// the given positions (all values 1) and renders the result.
+func construct(k, e int, idx []int, n int) string {
+	one := func() []float64 {
+		v := make([]float64, len(idx))
+		for i := range v {
+			v[i] = 1
+		}
+		return v
+	}
+	cols := make([]int, len(idx)) // matrix: bad row index, column 0
+	name := elemTypes[e].name
+	conv8, conv16, conv32, conv64, convI, convF32 := []int8{}, []int16{}, []int32{}, []int64{}, []int{}, []float32{}
+	for range idx {
+		conv8, conv16, conv32, conv64, convI, convF32 = append(conv8, 1), append(conv16, 1), append(conv32, 1), append(conv64, 1), append(convI, 1), append(convF32, 1)
+	}
+	switch k {
+	case 0:
+		switch name {
+		case "float64":
+			return fmt.Sprint(ad.NewSparseFloat64Vector(idx, one(), n))
+		case "real64":
+			return fmt.Sprint(ad.NewSparseReal64Vector(idx, one(), n))
+		case "float32":
+			return fmt.Sprint(ad.NewSparseFloat32Vector(idx, convF32, n))
+		case "real32":
+			return fmt.Sprint(ad.NewSparseReal32Vector(idx, convF32, n))
+		case "int":
+			return fmt.Sprint(ad.NewSparseIntVector(idx, convI, n))
+		case "int64":
+			return fmt.Sprint(ad.NewSparseInt64Vector(idx, conv64, n))
+		case "int32":
+			return fmt.Sprint(ad.NewSparseInt32Vector(idx, conv32, n))
+		case "int16":
+			return fmt.Sprint(ad.NewSparseInt16Vector(idx, conv16, n))
+		case "int8":
+			return fmt.Sprint(ad.NewSparseInt8Vector(idx, conv8, n))
+		}
+	case 1:
+		switch name {
+		case "float64":
+			return fmt.Sprint(ad.NewSparseConstFloat64Vector(idx, one(), n))
+		case "float32":
+			return fmt.Sprint(ad.NewSparseConstFloat32Vector(idx, convF32, n))
+		case "int":
+			return fmt.Sprint(ad.NewSparseConstIntVector(idx, convI, n))
+		case "int64":
+			return fmt.Sprint(ad.NewSparseConstInt64Vector(idx, conv64, n))
+		case "int32":
+			return fmt.Sprint(ad.NewSparseConstInt32Vector(idx, conv32, n))
+		case "int16":
+			return fmt.Sprint(ad.NewSparseConstInt16Vector(idx, conv16, n))
+		case "int8":
+			return fmt.Sprint(ad.NewSparseConstInt8Vector(idx, conv8, n))
+		}
+		return "n/a"
+	default:
+		switch name {
+		case "float64":
+			return fmt.Sprint(ad.NewSparseFloat64Matrix(idx, cols, one(), n, 2))
+		case "real64":
+			return fmt.Sprint(ad.NewSparseReal64Matrix(idx, cols, one(), n, 2))
+		case "float32":
+			return fmt.Sprint(ad.NewSparseFloat32Matrix(idx, cols, convF32, n, 2))
+		case "real32":
+			return fmt.Sprint(ad.NewSparseReal32Matrix(idx, cols, convF32, n, 2))
+		case "int":
+			return fmt.Sprint(ad.NewSparseIntMatrix(idx, cols, convI, n, 2))
+		case "int64":
+			return fmt.Sprint(ad.NewSparseInt64Matrix(idx, cols, conv64, n, 2))
+		case "int32":
+			return fmt.Sprint(ad.NewSparseInt32Matrix(idx, cols, conv32, n, 2))
+		case "int16":
+			return fmt.Sprint(ad.NewSparseInt16Matrix(idx, cols, conv16, n, 2))
+		case "int8":
+			return fmt.Sprint(ad.NewSparseInt8Matrix(idx, cols, conv8, n, 2))
+		}
+	}
+	return "n/a"
 }
